@@ -212,11 +212,17 @@ class Generator(object):
         else:
             minimum_length = 0
 
-        if maximum > 4294967295:
+        # A signed type is used if the minimum is negative.
+        if minimum < 0:
+            maximum_limits = (2147483647, 32767, 127)
+        else:
+            maximum_limits = (4294967295, 65535, 255)
+
+        if maximum > maximum_limits[0]:
             maximum_length = 64
-        elif maximum > 65535:
+        elif maximum > maximum_limits[1]:
             maximum_length = 32
-        elif maximum > 255:
+        elif maximum > maximum_limits[2]:
             maximum_length = 16
         elif maximum > 0:
             maximum_length = 8
